@@ -4,15 +4,17 @@ From Dns Require Import Model.Tsig.
 Open Scope N_scope.
 
 (* ---------- small string helpers ---------- *)
-Fixpoint split_aux (sep : ascii) (s : string) (cur : string) : list string :=
+(* linear in the length of [s] (the HMAC table of a message with hundreds of
+   records is several thousand characters): the current field is a difference list *)
+Fixpoint split_aux (sep : ascii) (s : string) (cur : string -> string) : list string :=
   match s with
-  | EmptyString => [cur]
+  | EmptyString => [cur EmptyString]
   | String c r =>
-    if Ascii.eqb c sep then cur :: split_aux sep r EmptyString
-    else split_aux sep r (cur +++ String c EmptyString)
+    if Ascii.eqb c sep then cur EmptyString :: split_aux sep r (fun x => x)
+    else split_aux sep r (fun x => cur (String c x))
   end.
 Definition split_str (sep : ascii) (s : string) : list string :=
-  match s with EmptyString => [] | _ => split_aux sep s EmptyString end.
+  match s with EmptyString => [] | _ => split_aux sep s (fun x => x) end.
 
 (* ---------- instances of the Section variables ---------- *)
 (* RDATA decoders of the record types the harness uses in model cases:
